@@ -36,10 +36,21 @@ Hash == (Len(text) * 7 + Cardinality({i \in 1..Len(text) : text[i] \in {"/", "\"
 RECURSIVE Join(_)
 Join(t) == IF t = <<>> THEN "" ELSE t[1] \o Join(Tail(t))
 
+\* the conditional directives of the text are properly nested (otherwise it is not a program)
+RECURSIVE BalancedR(_, _, _)
+BalancedR(lg, i, depth) ==
+  IF i > Len(lg) THEN depth = 0
+  ELSE IF lg[i].cat # "dir" THEN BalancedR(lg, i + 1, depth)
+  ELSE IF lg[i].kw \in {"if", "ifdef", "ifndef"} THEN BalancedR(lg, i + 1, depth + 1)
+  ELSE IF lg[i].kw \in {"elif", "else"} THEN depth > 0 /\ BalancedR(lg, i + 1, depth)
+  ELSE IF lg[i].kw = "endif" THEN depth > 0 /\ BalancedR(lg, i + 1, depth - 1)
+  ELSE BalancedR(lg, i + 1, depth)
+Balanced(r) == BalancedR(r.logical, 1, 0)
+
 Emit == /\ ~done /\ n > 0 /\ done' = TRUE /\ UNCHANGED <<text, n>>
         /\ (Hash = Shard) =>
              LET r == Scan(Full) IN
-             r.ok => PrintT(ToJson([text |-> Join(Full), counted |-> r.counted,
+             (r.ok /\ Balanced(r)) => PrintT(ToJson([text |-> Join(Full), counted |-> r.counted,
                                     logical |-> [i \in 1..Len(r.logical) |->
                                                    [cat |-> r.logical[i].cat, lines |-> r.logical[i].lines]]]))
 Next == Add \/ Emit
